@@ -62,6 +62,10 @@ CLAIMED = {
          'Symbolic execution of the real patRouter.Handle/ServeHTTP/methodsAllowed, search.Tree Add/Search/next, pathvar and path.Clean: concrete route tables (literal/variable siblings, shared prefixes, backtracking, several methods) x request paths of 0..3 (quick) / 0..4 (thorough) segments whose bytes are solver variables (every ASCII byte but the slash) x method, against a reference matcher (literal preferred at the first differing segment, exact bindings, 405 with exactly the other matching methods, 404); concrete dirty spellings for path cleaning; registration errors.',
          'go/ssa translation, gosym, z3; 10 tables of 3 routes, segments of 1..2 bytes, bytes < 0x80 (range over string is byte-wise for ASCII), one variable name per position; map iteration order explored as a decision; custom NotFound/NotAllowed handlers not covered.',
          'SSA symbolic execution + SMT (z3) with symbolic path bytes; differential against a reference matcher'),
+ 'C04': ('DESIGN.md §4 C04',
+         'The real REST TimeoutHandler/timeoutWriter, zRPC UnaryTimeoutInterceptor (server), TimeoutInterceptor (client), fx.DoWithTimeout and engine.checkedTimeout executed with the context package from source under the engine scheduler: wrapper, work goroutine, deadline timer and caller cancellation as environment events; the work writes headers/status/body chunks with symbolic contents, yields, then returns, panics or blocks forever. Asserted: deadline no later than caller deadline and now+chosen timeout; the wrapper never waits for work that ignores the deadline (deadlock detection); the client sees exactly the work\'s complete result or exactly the timeout result (503/499, DeadlineExceeded/Canceled), never a mixture, and nothing written later reaches the client; panics re-raised; websocket/SSE exempt; per-method/per-route/per-call timeout selection.',
+         'go/ssa translation, gosym scheduler; schedules are explored exhaustively up to 1 preemption (CHESS-style bound; switches at blocking points are free), because the context package alone contributes ~100 scheduling points; durations concrete (1 s default, 0.25-3 s alternatives) since time.Time arithmetic stays concrete; 1 (quick) / 2 (thorough) work operations; Flush/Hijack/Push of the timeout writer are outside.',
+         'SSA interpretation under a preemption-bounded exhaustive scheduler (bounded schedule exploration); solver for symbolic response data and timeout selection arithmetic'),
 }
 
 NA = {
